@@ -132,6 +132,9 @@ func (c *Ctx) c01Jobs(maxN int, flags ...string) []Job {
 	}
 	var preps []*prep
 	for _, l := range LexSpecs {
+		if !wantedByFilter("scan " + l.Name) {
+			continue
+		}
 		t, err := c.lexSpecTarget(l, flags...)
 		if err != nil {
 			c.Inconclusive = append(c.Inconclusive, err.Error())
@@ -199,4 +202,19 @@ func checkC01(c *Ctx) {
 	c.BoundsText = append(c.BoundsText, fmt.Sprintf("%d corpus lexical grammars through the current gocc; generated Scan versus a reference lexer over /verif's own Thompson NFA (regular definitions inlined, '.' only where no explicit alternative of a live item matches, priority: syntax literal, then declaration order); one Scan from every reachable offset, sources of 0..%d arbitrary bytes; compared: token NAME (through the generated TokMap), start offset, lexeme length, lexer offset afterwards", len(LexSpecs), maxN),
 		"outside the claim: patterns that match the empty string; recursive regular definitions; grammars outside the corpus; longer inputs")
 	c.RunJobs(filterJobs(jobs), 4)
+}
+
+// wantedByFilter: with GV_ONLY set (development, replay) targets whose job names cannot match are
+// not even generated.
+func wantedByFilter(prefix string) bool {
+	f := os.Getenv("GV_ONLY")
+	if f == "" {
+		return true
+	}
+	for _, alt := range strings.Split(f, "|") {
+		if strings.HasPrefix(alt, prefix) || strings.HasPrefix(prefix, alt) {
+			return true
+		}
+	}
+	return false
 }
